@@ -1,15 +1,17 @@
-\* exhaustive, the code as it is (both deviation switches off): chains of <= 3 blocks, <= 1 revert
-\* measured: 462 distinct states, 203 103 transitions, depth 6, ~9 s on 4 workers
+\* exhaustive, the code as it is (the three deviation switches off): chains of <= 3 blocks, <= 1 revert
+\* measured: 462 distinct states, 422 487 transitions (203 103 before the response-flag dimension), depth 6, ~14 s on 4 workers
 CONSTANTS
   MaxLen = 3
   MaxReverts = 1
   Txs <- MCTxs
   FixTxIndexMissingBlock = FALSE
   FixZeroHashState = FALSE
+  FixLegacyZeroWriteLog = FALSE
+  LubZeroShortcut = FALSE
   WithPreConfirmed = TRUE
 INIT Init
 NEXT Next
 VIEW view
 INVARIANTS TypeOK IndexesDescribeChain
-PROPERTIES ReadsAnswerFromChain RevertedNotFound FinalityFromL1Head L1AcceptedClamped ReadsArePure RestartIsNoOp InFlightAnswersFromAHeldChain
+PROPERTIES ReadsAnswerFromChain RevertedNotFound FinalityFromL1Head L1AcceptedClamped ReadsArePure RestartIsNoOp InFlightAnswersFromAHeldChain FlagsOnlyAdd LastUpdateWithinChain
 CHECK_DEADLOCK FALSE
